@@ -70,7 +70,19 @@ def fam_solve_shape(ctx, R_, n, mode):
     _solve_body(ctx, R_, n, M, mode)
 
 
-def _solve_body(ctx, R_, n, M, mode='fresh'):
+def fam_solve_history(ctx, R_, n, pos, a, b):
+    """two successive solve() calls in one process history: the second system equals the first except for ONE entry (position `pos`
+    of the first row, concrete a -> b; every other entry is a solver variable shared by both systems).  Each answer is checked
+    against its own system: a result that depends on an earlier call (memo, cache, module state) fails here."""
+    M1 = [[ctx.choice('m%d%d' % (i, j), DOM) for j in range(n + 1)] for i in range(R_)]
+    M1[0][pos] = F(a)
+    M2 = [list(r) for r in M1]
+    M2[0][pos] = F(b)
+    _solve_body(ctx, R_, n, M1, tag='h1')
+    _solve_body(ctx, R_, n, M2, tag='h2')
+
+
+def _solve_body(ctx, R_, n, M, mode='fresh', tag=''):
     A = [row[:-1] for row in M]
     lib_m = [[ctx.lib(x) if not isinstance(x, F) else int(x) for x in row] for row in M]
     if mode == 'aliased':
@@ -100,7 +112,7 @@ def _solve_body(ctx, R_, n, M, mode='fresh'):
     ok_rank = And(rank_ge(A, rk), Not(rank_ge(A, rk + 1))) if 0 <= rk <= n else False
     ctx.require(ok_rank, 'C16:varargs != unknowns - rank (library varargs=%d, unknowns=%d)' % (va, n))
     ctx.require(Iff(sol.exact, va == 0) if isinstance(sol.exact, bool) else False, 'C16:exact flag inconsistent')
-    vals = [ctx.param('v%d' % k) for k in range(va)]
+    vals = [ctx.param(tag + 'v%d' % k) for k in range(va)]
     st, xs = call(lambda: sol(*[ctx.lib(v) for v in vals]))
     if st == 'raise':
         ctx.outcome('call-raise')
@@ -115,7 +127,7 @@ def _solve_body(ctx, R_, n, M, mode='fresh'):
         lhs = sum(M[i][j] * xs[j] for j in range(n))
         ctx.require(near(lhs, M[i][n], tol), 'C16:returned tuple does not satisfy an equation')
     # the Solution object may be called again (with other free values): the answer must again be a solution
-    vals2 = [ctx.param('w%d' % k) for k in range(va)]
+    vals2 = [ctx.param(tag + 'w%d' % k) for k in range(va)]
     st, ys = call(lambda: sol(*[ctx.lib(v) for v in vals2]))
     if st == 'raise':
         ctx.fail('C16:calling the solution a second time raises %s' % exc_sig(ys), repr(ys))
@@ -152,6 +164,14 @@ def families(tier, seed):
         fams.append(Family('solve-%s/%dx%d' % (mode, R_, n), fam_solve_shape, (R_, n, mode), budget_s=None))
     for R_, n in (((3, 2),) if tier == 'quick' else ((3, 2), (3, 3))):
         fams.append(Family('solve-proportional/%dx%d' % (R_, n), fam_solve_prop, (R_, n), budget_s=None))
+    # histories: the same system with one entry changed, solved right after the first (every ordered pair of distinct values)
+    hshapes = [(1, 2), (1, 3)] if tier == 'quick' else [(1, 2), (1, 3), (2, 2)]
+    for R_, n in hshapes:
+        for pos in range(n + 1):
+            for a, b in product(DOM, repeat=2):
+                if a != b:
+                    fams.append(Family('solve-history/%dx%d/e%d/%d>%d' % (R_, n, pos, a, b), fam_solve_history, (R_, n, pos, a, b),
+                                       budget_s=None))
     return fams
 
 
@@ -171,7 +191,7 @@ META = dict(
                 'rank(A)=rank(A|b) (minor formulas), varargs = unknowns - rank, no None and zero residual.'),
     level_note='exact rational semantics (entries are small integers so float rounding cannot flip a comparison); z3 trusted for unsat',
     technique='symbolic execution of real code (z3, finite-domain reals), all paths; oracle = rank via minors',
-    bounds=dict(shapes='quick: 1x2,1x3,2x2,2x3 unknowns; thorough adds 3x2,3x3', entries='{-2,-1,0,1,2} (3x3: {-1,0,1})', free_values='reals in [-3,3]'),
-    outside_claim=['entries outside {-2..2}', 'more than 3 equations / 3 unknowns'],
+    bounds=dict(histories='two successive solve() calls on systems differing in one concrete entry (all ordered value pairs, every position of the first row; 1x2, 1x3; thorough adds 2x2)', shapes='quick: 1x2,1x3,2x2,2x3 unknowns; thorough adds 3x2,3x3', entries='{-2,-1,0,1,2} (3x3: {-1,0,1})', free_values='reals in [-3,3]'),
+    outside_claim=['entries outside {-2..2}', 'more than 3 equations / 3 unknowns', 'call histories longer than two solve() calls'],
     assumptions=['none beyond the entry domain'],
 )
